@@ -34,7 +34,7 @@ CHECKS = {
  "C09": ("4 C09", "outside-extent oracle on the tool's integer ordinates: panic value type without the ignore flag, empty result with it, InsertPoint error, for vertices from 1 unit to 10^6 pixels outside each border",
          "distances below 1e-10 CRS units are not representable in the tool and not generated",
          "runtime monitor: rejection oracle on panic value / result / error"),
- "C14": ("4 C14", "independent true-quadtree predicate on JSON documents vs validation verdicts for all built-ins and the complete single-field perturbation set (in-process), pixel size measured through the index, and the real binary's exit mode (error / panic / proceeds) through hook H2",
+ "C14": ("4 C14", "independent true-quadtree predicate on JSON documents vs validation verdicts for all built-ins and the complete perturbation set (single fields and square-preserving pairs) (in-process), pixel size measured through the index, and the real binary's exit mode (error / panic / proceeds) through hook H2",
          "requested ids always present in the document; cell-size perturbations below 1 % carry no demand",
          "runtime monitor: validation verdict oracle in-process and at the process boundary"),
  "C15": ("4 C15", "200-bit-float reference model of tile corners, point-to-tile lookup, outside points and matrix bounding boxes for every matrix of every built-in set in both corner conventions",
